@@ -88,6 +88,10 @@ def pinned_layout(lha, tmp):
 
 TRAILING_STARS = [b"a**", b"**a**", b"*a**", b"a***", b"?**", b"a*?**", b"**", b"*.txt**", b"d/**", b"d/*a**", b"x?**", b"**?", b"a.t?t**"]
 OPTION_STRINGS = ["lq", "vq", "lvq", "lq1v", "lq2v", "lvq0", "vq0v", "vvq1", "-l", "-v", "-lv", "-vq2", "lf", "lfq1", "lvf", "vi", "lq0q2", "lq2q0"]
+# quiet levels above 2 (every digit is a level: "q{num}"), the digit in every position of the option string (audit round 5)
+OPTION_STRINGS += ["lq3", "vq4", "lvq5", "vvq6", "lq7v", "vq8", "lq9", "vq9v", "-lq3", "lq9q0", "lq0q9", "lfq5", "vq3i"]
+# a 'q' without a digit followed by another option letter: the letter is an option, not a level
+OPTION_STRINGS += ["lqv", "vqv", "lqf", "vqi", "lqfv", "-lqv"]
 
 
 def directed_archive(now):
@@ -207,6 +211,18 @@ def replay(payload):
                 print("lha %s, line %d:\n  observed %r\n  expected %r" % (mode, ln, g, e))
             print("REPRODUCED" if bad else "not reproduced")
             return 1 if bad else 0
+        if payload.get("kind") == "tool-abnormal-exit" and isinstance(payload.get("detail"), dict) and "hex" in payload["detail"]:
+            # (audit round 5) a list command that ends with a non-zero status (e.g. the usage page for a quiet level it should accept)
+            d = payload["detail"]
+            lha = common.build_lha(cb)
+            p = os.path.join(tmp, "a.lzh")
+            open(p, "wb").write(bytes.fromhex(d["hex"]))
+            os.utime(p, (d["mtime"], d["mtime"]))
+            cmd = d["mode"] + ("" if d["quiet"] == "-" else "q" + d["quiet"])
+            rc, out, err = common.run_lha(lha, [cmd, p] + [bytes.fromhex(x) for x in d["patterns"]], now=d["now"])
+            print("lha %s: exit status %d\n%s" % (cmd, rc, out.decode("latin1")[:400]))
+            print("REPRODUCED" if rc != 0 else "not reproduced")
+            return 1 if rc != 0 else 0
         if payload.get("kind") != "list-output-differs-from-reference":
             print("replay by hand:", payload.get("kind"), payload.get("pair"))
             return 1
